@@ -31,10 +31,7 @@ Definition upath := (path * list str)%type.
 (* ------------------------------------------------------------------ 2. PurePath operations *)
 (* base / s : an absolute right operand replaces the base *)
 Definition pjoin (p : path) (s : str) : upath :=
-  match s with
-  | 47%N :: _ => ([], comps s)
-  | _ => (p, comps s)
-  end.
+  if prefixb [ch_slash] s then ([], comps s) else (p, comps s).
 Definition path_parent (p : path) : path := removelast p.
 Definition path_name (p : path) : str := match rev p with x :: _ => x | [] => [] end.
 (* p.with_name(n): ValueError if p has no name (the new name is built by the caller from the old one and is
@@ -243,3 +240,28 @@ Definition uout_of (r : res gresp) : uout :=
   | OutOfModel => UOom
   end.
 Definition forget_meta (o : uout) : uout := match o with UResp st _ => UResp st [] | x => x end.
+
+(* ------------------------------------------------------------------ 6. vocabulary of the tie statements *)
+(* Path.resolve() raises ValueError on an embedded NUL: _resolve_fully answers None *)
+Definition nul_guard (rel : list str) (r : res (option path)) : res (option path) :=
+  if existsb (mem 0%N) rel then Ok None else r.
+(* the model's resolve_target includes the containment test that the code makes afterwards (_is_safe_path) *)
+Definition contained (root : path) (r : res (option path)) : res (option path) :=
+  match r with
+  | Ok (Some t) => if path_prefixb root t then Ok (Some t) else Ok None
+  | x => x
+  end.
+(* index file names: no NUL, no slash, and none of them resolves (from any directory) to a path inside the root
+   that has a component of more than 255 bytes *)
+Definition index_names_ok (c : scfg) (f : fs) : Prop :=
+  forall i, In i (s_indices c) ->
+    mem 0%N i = false /\ mem ch_slash i = false /\
+    forall d ip, resolve_fully f d [i] = FPath ip -> path_prefixb (s_root c) ip = true -> name_too_long ip = false.
+(* the temporary file of an upload to t: ".<name>.<token>.tmp" beside t *)
+Definition tmp_name (name tok : str) : str := lit "." ++ name ++ lit "." ++ tok ++ lit ".tmp".
+Definition tmp_of (t : path) (tok : str) : path := removelast t ++ [tmp_name (path_name t) tok].
+(* its name is not over-long and nothing of that name exists *)
+Definition tmp_ok (f : fs) (t : path) (tok : str) : Prop :=
+  name_too_long (tmp_of t tok) = false /\ lstat f (tmp_of t tok) = None.
+Definition upload_out (x : res gresp * fs) : uout * fs := (uout_of (fst x), snd x).
+Definition model_out (x : uout * fs) : uout * fs := (forget_meta (fst x), snd x).
